@@ -297,11 +297,11 @@ def shards(tier, seed):
     n_h = 12 if tier == 'quick' else 16
     for k in range(n_h):
         out.append(dict(kind='hyp', seed=seed * 1000 + k,
-                        n=1500 if tier == 'quick' else 30000))
+                        n=1500 if tier == 'quick' else 100000))
     out.append(dict(kind='literals', seed=seed * 1000 + 500,
-                    n=3000 if tier == 'quick' else 60000))
+                    n=3000 if tier == 'quick' else 200000))
     out.append(dict(kind='workbook', seed=seed * 1000 + 600,
-                    n=300 if tier == 'quick' else 4000))
+                    n=300 if tier == 'quick' else 10000))
     # coverage-guided (atheris / libFuzzer) over the same structured property
     for k in range(1 if tier == 'quick' else 4):
         out.append(dict(kind='atheris', seed=seed * 1000 + 700 + k,
